@@ -1,16 +1,24 @@
 package ttlv
 
 import (
+	"encoding/binary"
 	"io"
+	"math"
 	"slices"
 )
 
 // computeNeededBytes calculates the number of bytes needed to process a TTLV-encoded buffer.
 // If the buffer length is less than 8 bytes, it returns 8 as the minimum required size.
-// Otherwise, it returns 8 plus the padded length of the TTLV value as determined by ttlvReader.
+// Otherwise, it returns 8 plus the padded length of the TTLV value as determined by ttlvReader,
+// or -1 if that size cannot be represented by an int on the current platform.
 func computeNeededBytes(buf []byte) int {
 	if len(buf) < 8 {
 		return 8
+	}
+	// The announced length is an unsigned 32 bits number: where int is 32 bits wide it must not
+	// wrap around (and bypass the size checks) when converted and padded.
+	if l := binary.BigEndian.Uint32(buf[4:8]); uint64(l) > math.MaxInt-16 {
+		return -1
 	}
 	dec := ttlvReader{buf: buf}
 	return 8 + dec.paddedLen()
@@ -72,6 +80,9 @@ func (s *Stream) Recv(msg any) error {
 		}
 		read += n
 		need = computeNeededBytes(buf[:read])
+		if need < 0 {
+			return Errorf("Message is too big. Its size can't be represented on this platform")
+		}
 		if s.max > 0 && need > s.max {
 			return Errorf("Message is too big. Max allowed size is %d bytes", s.max)
 		}
